@@ -135,20 +135,23 @@ func CallNth(vm *VM, goal, nth Term, k Cont, env *Env) *Promise {
 		err       error
 		parentEnv = env
 	)
-	p = Call(vm, goal, func(env *Env) *Promise {
-		n, err = addI(n, Integer(1))
-		if err != nil {
-			return Error(representationError(flagMaxInteger, parentEnv))
-		}
+	// A cut inside goal pops the promise of Call off the stack. p has to be a promise that stays beneath it.
+	p = Delay(func(context.Context) *Promise {
+		return Call(vm, goal, func(env *Env) *Promise {
+			n, err = addI(n, Integer(1))
+			if err != nil {
+				return Error(representationError(flagMaxInteger, parentEnv))
+			}
 
-		u := Unify(vm, n, nth, k, env)
-		if nth, ok := nth.(Integer); ok && nth <= n {
-			return cut(p, func(context.Context) *Promise {
-				return u
-			})
-		}
-		return u
-	}, env)
+			u := Unify(vm, n, nth, k, env)
+			if nth, ok := nth.(Integer); ok && nth <= n {
+				return cut(p, func(context.Context) *Promise {
+					return u
+				})
+			}
+			return u
+		}, env)
+	})
 	return p
 }
 
